@@ -384,13 +384,41 @@ def decimal_cases(ctx):
         check_decimal_cases(ctx, cases[i:i + 10000])
 
 
+def default_cases(ctx):
+    """`Range(description, default)`: a blank description stands for the default, any other description wins"""
+    descriptions = ["", " ", "\t ", "5", "1...3", " 7... "]
+    defaults = ["1...9", "2, 4...", "'a'...'z'", "...0", "0x10:0x20", "tab", "3...1", "x"]
+    values = [-1, 0, 1, 2, 3, 4, 5, 7, 9, 10, 16, 32, 97, 122]
+    lines = [line("range.model", enc(d), ",".join(str(v) for v in values), enc(f)) for d in descriptions for f in defaults]
+    out = core.run_driver(lines)
+    k = 0
+    for d in descriptions:
+        for f in defaults:
+            mo = out[k]
+            k += 1
+            itag, ival = impl_range(d, values, default=f)
+            impl_repr = itag if ival is None else "ok items=%s lo=%s hi=%s bits=%s" % (items_str(ival["items"]), optint(ival["lo"]), optint(ival["hi"]), ival["bits"])
+            # what the statement says: the range of the text that applies
+            applies = f if d.strip() == "" else d
+            atag, aval = impl_range(applies, values)
+            applies_repr = atag if aval is None else "ok items=%s lo=%s hi=%s bits=%s" % (items_str(aval["items"]), optint(aval["lo"]), optint(aval["hi"]), aval["bits"])
+            case = {"text": d, "default": f, "values": [str(v) for v in values], "model": mo, "impl": impl_repr, "applies": applies_repr}
+            ctx.count(key=("default", d, f), nontrivial=True, branch="default:" + mo.split(" ")[0])
+            if impl_repr != mo:
+                ctx.violation("C01:default:%s" % ("blank" if d.strip() == "" else "given"),
+                              "Range(%r, default=%r): implementation %s, model %s" % (d, f, impl_repr, mo), case)
+            elif impl_repr != applies_repr:
+                ctx.violation("C01:default-differs:%s" % ("blank" if d.strip() == "" else "given"),
+                              "Range(%r, default=%r) is %s but Range(%r) is %s" % (d, f, impl_repr, applies, applies_repr), case)
+
+
 def run(ctx):
     rnd = ctx.rnd
     ctx.rule = ("exhaustive: all 1-2 item descriptions with limits in {-2..2, none} x 3 separators x values -4..4 (plain decimal spelling); "
                 "grammar stream: 1-4 items, every limit spelling (decimal, hex, quoted, symbolic), separators, blanks, magnitudes up to 10^30, "
                 "probes = every boundary and its neighbours; decimal ranges: all 1 item and a seventh (thorough: all) of the 2 item descriptions over 8 decimal limits x 20 probe values, "
                 "and a grammar stream of 1-4 items with 0-6 fraction digits, trailing zeros, magnitudes up to 10^25, blanks, three separators, probes = every limit, one unit in the last "
-                "place and one place finer on either side, the same number at another scale; distinct = distinct (text, probe list); non-trivial = at least one item")
+                "place and one place finer on either side, the same number at another scale; Range(description, default) for blank and given descriptions x 8 defaults; distinct = distinct (text, probe list); non-trivial = at least one item")
     cases = []
     smalls = small_items()
     values = list(range(-4, 5))
@@ -417,6 +445,7 @@ def run(ctx):
     for i in range(0, len(cases), 20000):
         check_cases(ctx, cases[i:i + 20000])
     decimal_cases(ctx)
+    default_cases(ctx)
     # the hypothesis `BoundedLimits` of C01_parse_render: CPython's int() refuses decimal strings of more than 4300 digits
     for ndigits, inside in ((4300, True), (4301, False)):
         text = "1..." + "9" * ndigits
